@@ -578,7 +578,9 @@ fn gen_batch_render(rng: &mut Rng, sw: &Swarm, tg: &mut TaskGen, n_inputs: usize
         let b = (a + 1 + rng.below(2) as u8) % 3;
         ops.push(plain(Op::ImgSet { slot: 0, s: RSetter::Image(ImageSpec::File(a)) }));
         ops.push(plain(render(0, 0)));
-        ops.push(plain(Op::ImgSet { slot: 0, s: RSetter::Image(ImageSpec::File(b)) }));
+        // ... or the next logo is named by a relative path (another directory altogether)
+        let second = if rng.chance(1, 2) { ImageSpec::RelFile(b) } else { ImageSpec::File(b) };
+        ops.push(plain(Op::ImgSet { slot: 0, s: RSetter::Image(second) }));
         ops.push(plain(render(0, 0)));
         ops.push(plain(render(0, k - 1)));
         return;
